@@ -363,6 +363,7 @@ def check_solver(recipe, src_root):
     oorder = {l.name: i for i, l in enumerate(oleaves)}
     sorder = {l.name: i for i, l in enumerate(sleaves)}
     best = None
+    n_opt = 0
     for ot in binary_trees_displaying(onodes[0]):
         osh, ols = nested_shape(ot, oorder)
         for st in binary_trees_displaying(snodes[0]):
@@ -375,11 +376,13 @@ def check_solver(recipe, src_root):
                    "leaf_syn": [recipe["leaf_syn"][i] for i in ols]}
             P = srec.Problem(src_root, sub)
             if ordered:
-                b, _ = srec.ordered_optimum(P, base)
+                b, opt = srec.ordered_optimum(P, base)
             else:
-                b, _ = srec.unordered_optimum(P, base, srec.canonical_labellings(P, srec.family_choices(P)))
+                b, opt = srec.unordered_optimum(P, base, srec.canonical_labellings(P, srec.family_choices(P)))
             if b is not None and (best is None or b < best):
-                best = b
+                best, n_opt = b, 0
+            if b is not None and b == best:
+                n_opt += len(opt)  # optimal solutions on different refinements are different solutions
     for pol in ("ALL", "ANY"):
         try:
             with contextlib.redirect_stderr(io.StringIO()):
@@ -401,6 +404,10 @@ def check_solver(recipe, src_root):
             c = o.cost()
             if srec.coherent(recipe["costs"]) and c != best:
                 return f"{algo}/{pol}: returned cost {c}; the optimum over all binary refinements of both trees is {best}"
+        if srec.coherent(recipe["costs"]) and pol == "ALL" and len(outs) != n_opt:
+            return f"{algo}/ALL: returned {len(outs)} solutions; the refinements of both trees have {n_opt} minimum-cost solutions in total"
+        if srec.coherent(recipe["costs"]) and pol == "ANY" and len(outs) != 1:
+            return f"{algo}/ANY: returned {len(outs)} solutions"
     return None
 
 
